@@ -267,7 +267,7 @@ def run(ctx):
     #    TLC must find a counterexample (SwapBug/CopyAssignBug/MoveAssignBug = the unrepaired code)
     def guard(g):
         cfg, inv, _ = g
-        return cfg, inv, vlib.tlc("TreeImpl", cfg, workers=2, tag="TreeImpl_g", xmx="1g")
+        return cfg, inv, vlib.tlc("TreeImpl", cfg, workers=2, tag="TreeImpl_g", xmx="1g", expect=inv)
     for cfg, inv, r in vlib.parallel(guard, [g for g in GUARDS if thorough or g[2]], workers=5):
         if inv not in r.invariant_violated:
             raise vlib.Infra("vacuity guard: %s did not violate %s" % (cfg, inv))
